@@ -44,10 +44,130 @@ TASKS = [StructTask("fdwra-structure", structure)]
 
 META = dict(
     level="other",
-    explanation="structural obligations on the driver (bounded for-loop, every exit returns the iteration number, mask writes guarded by the current "
-                "accept flag); the algorithm itself (decisions, iteration count, never re-accepting, window-order and amplitude-scale invariance, "
-                "azimuthal maximum) is evaluated natively against an independent re-implementation of Cox et al. (2020) - labelled bounded; the "
-                "statistics accessors the driver calls are vectorised numpy outside the PyVC subset",
+    explanation="_frequency_domain_window_rejection is under contract with its statistics accessors as uninterpreted functions of the current masks "
+                "(MEANFN, STDFN, NTHFN of the accepted-peak mask; MCPEAK of the accepted-window mask; the distribution arguments are opaque and "
+                "only passed through): for every number of windows, every mask pair, every n and max_iterations >= 1 the masks after the call "
+                "equal the published iteration applied `result` times (ghost sequences PM/WM defined by their one-step axioms), `result` is the "
+                "first iteration at which the published stopping rule holds or max_iterations, no window is re-accepted, and only the two masks "
+                "are written. Structural obligations on the same function are kept. That the accessors compute the textbook statistics is C05's "
+                "contract; the outer wrapper (peak search set-up, azimuthal maximum), window-order and amplitude-scale invariance are evaluated "
+                "natively against an independent re-implementation of Cox et al. (2020) - labelled bounded",
     trusted_base=["A-REAL", "numpy/scipy", "the AST pattern matcher of the structural task"],
-    assumptions=["A-REAL", "A-FIND-PEAKS", "A-PERM (order invariance is sampled)"],
+    assumptions=["A-REAL", "A-FIND-PEAKS", "A-PERM (order invariance is sampled)",
+                 "A-ACCESSOR-FUNCTIONAL: each statistics accessor is a function of the mask it reads, the (fixed) peak / amplitude arrays and its "
+                 "distribution argument, and writes nothing (frames: C09; values: C05)"],
 )
+
+
+# ---------------------------------------------------------------------------------------------------------------------
+# _frequency_domain_window_rejection under contract: the statistics accessors are opaque functions of the current masks (their own
+# contracts are C05's); what is proved is that the driver performs exactly the published iteration on them.
+import z3
+
+from pyvc.core import I, R, B, FuncV, Tup
+from pyvc.contract import Contract, FunctionTask, sym_arr1, sym_obj
+
+K = z3.Int("K")                      # number of windows
+AB = z3.ArraySort(I, B)
+VP0, VW0 = z3.Const("valid_peak_on_entry", AB), z3.Const("valid_window_on_entry", AB)
+FRQ = z3.Const("main_peak_frq", z3.ArraySort(I, R))
+nn = z3.Real("n")
+maxit = z3.Int("max_iterations")
+dfn, dmc = z3.Ints("distribution_fn distribution_mc")     # opaque distribution arguments (only passed through)
+MEANFN = z3.Function("MEANFN", AB, I, R)     # mean_fn_frequency as a function of the accepted-peak mask and the distribution argument
+STDFN = z3.Function("STDFN", AB, I, R)
+NTHFN = z3.Function("NTHFN", AB, R, I, R)
+MCPEAK = z3.Function("MCPEAK", AB, I, R)     # frequency of the mean-curve peak as a function of the accepted-window mask
+PM = z3.Function("PM", I, AB)                # accepted-peak mask after t iterations of the published algorithm
+WM = z3.Function("WM", I, AB)
+
+
+def zabs(x):
+    return z3.If(x >= 0, x, -x)
+
+
+def D(t):
+    return zabs(MEANFN(PM(t), dfn) - MCPEAK(WM(t), dmc))
+
+
+def S(t):
+    return STDFN(PM(t), dfn)
+
+
+def STOP(t):
+    """the published stopping rule evaluated after iteration t (t >= 1)"""
+    return z3.Or(D(t - 1) == 0, S(t - 1) == 0, S(t) == 0,
+                 z3.And(zabs(D(t) - D(t - 1)) / D(t - 1) < z3.Q(1, 100), zabs(S(t) - S(t - 1)) < z3.Q(1, 100)))
+
+
+t_, i_ = z3.Ints("t!f i!f")
+INB = lambda t, i: z3.And(FRQ[i] > NTHFN(PM(t), -nn, dfn), FRQ[i] < NTHFN(PM(t), nn, dfn))
+AX_FD = [
+    PM(0) == VP0, WM(0) == VW0,
+    z3.ForAll([t_, i_], z3.Implies(t_ >= 0, z3.Select(PM(t_ + 1), i_) == z3.If(z3.And(i_ >= 0, i_ < K, z3.Select(PM(t_), i_)), INB(t_, i_), z3.Select(PM(t_), i_))),
+              patterns=[z3.Select(PM(t_ + 1), i_)]),
+    z3.ForAll([t_, i_], z3.Implies(t_ >= 0, z3.Select(WM(t_ + 1), i_) == z3.If(z3.And(i_ >= 0, i_ < K, z3.Select(PM(t_), i_)), INB(t_, i_), z3.Select(WM(t_), i_))),
+              patterns=[z3.Select(WM(t_ + 1), i_)]),
+]
+
+
+def _mask_of(st, obj, name):
+    return st.heap[st.heap[obj.oid].fields[name].sid].data
+
+
+def _accessors():
+    return {
+        "HvsrTraditional.mean_fn_frequency": FuncV(lambda ex, st, a, k, n_: MEANFN(_mask_of(st, a[0], "valid_peak_boolean_mask"), a[1]), "mean_fn_frequency"),
+        "HvsrTraditional.std_fn_frequency": FuncV(lambda ex, st, a, k, n_: STDFN(_mask_of(st, a[0], "valid_peak_boolean_mask"), a[1]), "std_fn_frequency"),
+        "HvsrTraditional.nth_std_fn_frequency": FuncV(lambda ex, st, a, k, n_: NTHFN(_mask_of(st, a[0], "valid_peak_boolean_mask"), a[1], a[2]), "nth_std_fn_frequency"),
+        "HvsrTraditional.mean_curve_peak": FuncV(lambda ex, st, a, k, n_: Tup((MCPEAK(_mask_of(st, a[0], "valid_window_boolean_mask"), a[1]), ex.fresh("mc_peak_amp", R))), "mean_curve_peak"),
+    }
+
+
+def _fd_inputs(ex, st):
+    vp = ex.alloc_arr(st, (K,), VP0, "bool", "param:hvsr.valid_peak_boolean_mask", tag="vp")
+    vw = ex.alloc_arr(st, (K,), VW0, "bool", "param:hvsr.valid_window_boolean_mask", tag="vw")
+    fq = ex.alloc_arr(st, (K,), FRQ, "real", "param:hvsr._main_peak_frq", tag="frq")
+    st.env["hvsr"] = sym_obj(ex, st, "HvsrTraditional", {"valid_peak_boolean_mask": vp, "valid_window_boolean_mask": vw, "_main_peak_frq": fq}, owner="param:hvsr")
+    st.env["n"], st.env["max_iterations"], st.env["distribution_fn"], st.env["distribution_mc"] = nn, maxit, dfn, dmc
+    st.env["K"] = K
+    return [K >= 0]
+
+
+def _same(ex, st, args, kw, node):
+    return st.heap[args[0].sid].data == args[1]
+
+
+def _hvsr_havoc(ex, st, v):
+    """the loops write elements of the two masks in place: same storage, unknown content (pinned down again by the invariants)"""
+    from pyvc.core import ArrData
+    for name in ("valid_peak_boolean_mask", "valid_window_boolean_mask"):
+        ref = st.heap[v.oid].fields[name]
+        d = st.heap[ref.sid]
+        st.heap[ref.sid] = ArrData(d.shape, ex.fresh(name, AB), d.elem, d.owner, d.view_of)
+    return v
+
+
+GH_FD = {"raw": FuncV(lambda ex, st, a, k, n_: z3.Select(st.heap[a[0].sid].data, a[1]), "raw"), "PM": PM, "WM": WM, "same": FuncV(_same, "same"), "STOP": lambda t: STOP(t), "LO": lambda t: NTHFN(PM(t), -nn, dfn), "HI": lambda t: NTHFN(PM(t), nn, dfn),
+         "VP0": VP0, "sel": lambda a, i: z3.Select(a, i)}
+
+FD = Contract(
+    qual="hvsrpy.window_rejection._frequency_domain_window_rejection", params=["hvsr", "n", "max_iterations", "distribution_fn", "distribution_mc"],
+    ghost=GH_FD, requires=["max_iterations >= 1"],
+    ensures=["1 <= result and result <= max_iterations",
+             "same(hvsr.valid_peak_boolean_mask, PM(result))", "same(hvsr.valid_window_boolean_mask, WM(result))",
+             "STOP(result) or result == max_iterations",
+             "forall(t, 1, result, not STOP(t))",
+             "forall(i, 0, K, implies(hvsr.valid_peak_boolean_mask[i], sel(VP0, i)))"],
+    loops={0: ["same(hvsr.valid_peak_boolean_mask, PM(_k0))", "same(hvsr.valid_window_boolean_mask, WM(_k0))",
+               "forall(t, 1, _k0 + 1, not STOP(t))", "forall(i, 0, K, implies(hvsr.valid_peak_boolean_mask[i], sel(VP0, i)))"],
+           1: ["forall(i, 0, _k1, hvsr.valid_peak_boolean_mask[i] == sel(PM(_k0 + 1), i) and hvsr.valid_window_boolean_mask[i] == sel(WM(_k0 + 1), i))",
+               "forall(i, _k1, K, hvsr.valid_peak_boolean_mask[i] == sel(PM(_k0), i) and hvsr.valid_window_boolean_mask[i] == sel(WM(_k0), i))",
+               "forall(i, None, 0, raw(hvsr.valid_peak_boolean_mask, i) == sel(PM(_k0), i) and raw(hvsr.valid_window_boolean_mask, i) == sel(WM(_k0), i))",
+               "forall(i, K, None, raw(hvsr.valid_peak_boolean_mask, i) == sel(PM(_k0), i) and raw(hvsr.valid_window_boolean_mask, i) == sel(WM(_k0), i))",
+               "forall(i, 0, K, implies(hvsr.valid_peak_boolean_mask[i], sel(VP0, i)))"]},
+    axioms=AX_FD, make_inputs=_fd_inputs, obj_havoc={"hvsr": _hvsr_havoc}, modifies=["param:hvsr.valid_peak_boolean_mask", "param:hvsr.valid_window_boolean_mask"],
+    notes="masks after the call = the published iteration applied `result` times; result = first iteration at which the published stopping rule holds, or "
+          "max_iterations; never re-accepts; only the two masks are written")
+
+TASKS.append(FunctionTask(FD, registry=_accessors(), clauses=["exactly the accept/reject decisions and iteration count of the published algorithm; never re-accepts; at most max_iterations"]))
